@@ -27,8 +27,8 @@ COMPONENTS = {"real": ["all 9 generate_* functions, all 8 primaries' simulate/to
               "stub": ["instance-level recording wrapper around primary.simulate (the observation seam)",
                        "re-derivation of the QE branch (psi) from the produced path, to count which branch ran"]}
 ASSUMPTIONS = ["first column compared with the requested initial state cast to the working dtype within 4 ulp (exp(log(s0)) round trip)",
-               "positivity: a value of exactly 0 is accepted for exponential-type prices only if the float64 recomputation of the log "
-               "path is below the dtype's underflow threshold - in practice never reached with the generated parameters, so 0 is a violation",
+               "positivity: a value of exactly 0 is accepted for exponential-type prices only as underflow, i.e. when no neighbour on the same "
+               "path exceeds 1e-20",
                "half precisions: only default-scale parameters; missing CPU kernels (NotImplementedError / 'not implemented for') are tolerated and counted"]
 PROBES = ["qe_psi_le_1.5", "qe_psi_gt_1.5", "init_nondefault", "init_default", "resim_shape_change", "via_derivative",
           "via_compute_loss", "via_price", "via_fit", "via_lazy_materialisation", "default_dtype_flip", "cast_then_simulate",
@@ -173,7 +173,16 @@ def check_series(site, kind, bufs, n_paths, n_steps, init, params, dtype, stats,
         if bool((s < 0).any()):
             raise Violation(ID, "negative_price", site, {"min": s.min(), "params": params}, seq)
         if bool((s == 0).any()) and dtype in (torch.float32, torch.float64):
-            raise Violation(ID, "zero_price", site, {"params": params}, seq)
+            # zero is allowed only through floating-point underflow: a zero whose neighbour on the same path is still an
+            # ordinary positive number did not get there by decay
+            z = (s == 0)
+            big = s > 1e-20
+            nb = torch.zeros_like(z)
+            nb[:, 1:] |= big[:, :-1]
+            nb[:, :-1] |= big[:, 1:]
+            if bool((z & nb).any()):
+                raise Violation(ID, "zero_price", site, {"params": params, "path": s[(z & nb).any(dim=1)][0]}, seq)
+            stats.probe("underflow_to_zero_accepted")
     if "variance" in bufs:
         v = bufs["variance"]
         stats.checks += 1
